@@ -89,6 +89,25 @@ def e_rpc_error_kept(C, rep, rid):
                detail="" if not bad else "the error of call_typed is %s at %s: the numeric code is lost, the caller sees RpcError::General (wait_payment then aborts on a tolerated part failure; pay's dispatch changes)" % (bad[0][1], bad[0][0].loc))
 
 
+def o_one_request_per_call(C, rep, rid):
+    rep.rule(rid, "the ClnRpc implementation sends each request once: one call_typed site per method, not inside a loop (a transparent re-send of `pay` after a lost reply starts a second payment while the first may be in flight)")
+    F, X = C.F, C.X
+    ms = rpc_impl_methods(F, ("get_info", "listsendpays", "waitsendpay", "listdatastore", "datastore", "pay"))
+    rep.anchor(rid, "ClnRpc implementation methods", len(ms), 6)
+    for k, ty, mn in ms:
+        sites = []
+        for g in F.group(k):
+            for c in g.calls:
+                if c.name in ("cln_rpc::ClnRpc::call_typed", "cln_rpc::ClnRpc::call", "cln_rpc::ClnRpc::call_raw") and not c.noise:
+                    sites.append((g, c))
+        ok = len(sites) == 1
+        rep.ob(rid, ok, k, "%s: a single request is sent" % mn, where=sites[1][1].loc if len(sites) > 1 else (sites[0][1].loc if sites else ""), how="%d call_typed site(s)" % len(sites),
+               detail="" if ok else "%s can send its request %d times (retry / re-send): for `pay` that is a second payment attempt" % (mn, len(sites)))
+        for g, c in sites[:1]:
+            lp = c.bb in g.reach_after([c.bb])
+            rep.ob(rid, not lp, k, "%s: the request is not re-sent in a loop" % mn, where=c.loc, how="call site not reachable from itself", detail="" if not lp else "%s re-sends its request in a loop" % mn)
+
+
 def g_getinfo_is_fresh(C, rep, rid):
     rep.rule(rid, "every call of the ClnRpc implementation asks the node: what it returns is the awaited result of a call_typed made in that call (no cached copy - the periodic poll must see the node's current height, the listings the current parts, the datastore the current records)")
     F, X = C.F, C.X
@@ -436,6 +455,14 @@ def v_wait_payment(C, rep, pfx):
                 if fe is not None and truth == ("None",) and all(a[0] == "await" and a[1][0] == "call" and a[1][1].endswith("StreamExt::next") for a in alts(fe)):
                     g = True
             rep.ob(rid, g, fn, "Ok(None) dominated by `tasks.next() == None`", where=w, how="None edge of the stream", detail="" if g else "wait_payment can report `no payment` at %s before every pending part has been waited for" % w)
+            # a preimage seen in the COMPLETE listing is never dropped: `no payment` is reported only where that listing
+            # had none (the None edge of the lookup over the COMPLETE listing dominates the exit)
+            g2 = False
+            for fe, truth, c in enum_facts(b, X, s):
+                if fe is not None and truth == ("None",) and "COMPLETE" in _listing_status(fe) and "PENDING" not in _listing_status(fe):
+                    g2 = True
+            rep.ob(rid, g2, fn, "Ok(None) only where the COMPLETE listing had no preimage", where=w, how="None edge of the lookup over the COMPLETE listing",
+                   detail="" if g2 else "wait_payment can report `no payment` at %s although the COMPLETE listing showed a part with a preimage (the early return is conditional / the preimage is dropped when the pending parts then fail)" % w)
         if NX and WS:
             nx = NX[0]
             ws = WS[0]
@@ -596,6 +623,8 @@ def v_wait_payment(C, rep, pfx):
         e_rpc_error_kept(C, rep, pfx + "-V7")
         # ---- V8: the listings (and every other RPC) show the node's current state
         g_getinfo_is_fresh(C, rep, pfx + "-V8")
+        # ---- V9: one request per call
+        o_one_request_per_call(C, rep, pfx + "-V9")
         # ---- V1
         rid = pfx + "-V1"
         rep.rule(rid, "a returned preimage is the payment_preimage of a COMPLETE-listed part or of a successful waitsendpay")
